@@ -105,6 +105,9 @@ def read_harness(kind: str):
                 issubclass(e.exc.cls, TimeoutError) and I.ghost.get("timed_out", False)),
                 e.exc.cls.__name__)
             I.prove("R-a-timed-out-read-consumes-nothing", z3.BoolVal(I.ghost["consumed"] == 0))
+            I.prove("R-a-timed-out-read-leaves-no-read-pending-on-the-stream",
+                    z3.BoolVal(not I.ghost.get("left_pending")),
+                    "the readline() keeps running after the timeout and takes a later line")
             return
         if eof:
             I.prove("R-end-of-stream-is-the-empty-result",
@@ -140,6 +143,7 @@ def server_harness(I: Interp) -> None:
     def havoc(I2: Interp, fr: Frame) -> None:
         seen.clear()
         I2.ghost["written"] = []
+        I2.ghost["spawned"] = []
         kind["v"] = None
         I2.ghost["at_eof"] = I2.choose([z3.BoolVal(True)] * 2) == 1
         # any number of earlier requests: none or some (their sum is an arbitrary real)
@@ -149,6 +153,9 @@ def server_harness(I: Interp) -> None:
     def inv(I2: Interp, fr: Frame) -> list[tuple[str, Any]]:
         k = kind["v"]
         if k is None:
+            if I2.ghost["__loop_phase"] == "preserved":
+                # the iteration read a request line and went on to the next read
+                return [("a-request-is-answered-before-the-next-line-is-read", z3.BoolVal(False))]
             return []
         w = I2.ghost["written"]
         out = [("request-handed-over-is-the-message-of-the-line", z3.And(
@@ -173,10 +180,84 @@ def server_harness(I: Interp) -> None:
         return
     I.prove("S-loop-ends-only-on-end-of-stream-or-exception",
             z3.BoolVal(I.ghost["at_eof"] or kind["v"] == 2))
+    I.prove("S-requests-are-answered-in-the-handler-itself(no-concurrent-reply-tasks)",
+            z3.BoolVal(not I.ghost.get("spawned")))
+
+
+MAX_LINE = 2 * 4095 + 1  # hex form of the longest message of the statement, plus the newline
+
+
+def stream_limit_harness(which: str):
+    """readline() returns a line only if it fits the stream's buffer limit (64 KiB by default,
+    ValueError beyond it): whoever creates the stream must leave room for the longest line of
+    the statement (messages of 1..4095 bytes -> 8191 bytes)."""
+    def harness(I: Interp) -> None:
+        import gallia.command  # noqa: F401
+        from gallia.services.uds import server as SV
+        tcp, unix = T()
+        made: list[dict[str, V]] = []
+
+        def opener(I2: Interp, args: list[V], kwargs: dict[str, V]) -> V:
+            made.append(kwargs)
+            if which.startswith("server"):
+                return coro(lambda: te.stub("aserver"))
+            return coro(lambda: VTuple([te.stub("reader"), te.stub("writer")]))
+        for fn in (asyncio.start_server, asyncio.start_unix_server, asyncio.open_connection,
+                   asyncio.open_unix_connection):
+            models.MODELS[fn] = opener
+        te.install_io(I.ex)
+        I.ex.stubs[("aserver", "serve_forever")] = lambda I2, r, a, k: coro(lambda: NONE)
+
+        def server_cm(I2: Interp, cm: V) -> Any:
+            if isinstance(cm, VObj) and cm.tag == "aserver":
+                return (lambda: cm), (lambda exc: False)
+            return None
+        if server_cm not in models.WITH_MODELS:
+            models.WITH_MODELS.append(server_cm)
+        target = VObj(Stub, {"hostname": VStr("127.0.0.1"), "port": VInt(1), "path": VStr("/p")},
+                      lazy=True, tag="target")
+        try:
+            if which == "server/tcp":
+                o = VObj(SV.TCPUDSServerTransport, {"target": target})
+                I.await_v(I.call_v(I.getattr_v(o, "run"), [], {}))
+            elif which == "server/unix":
+                o = VObj(SV.UnixUDSServerTransport, {"target": target})
+                I.await_v(I.call_v(I.getattr_v(o, "run"), [], {}))
+            else:
+                cls = tcp.TCPLinesTransport if which == "client/tcp-lines" else \
+                    unix.UnixLinesTransport
+                I.ex.contracts[cls.__dict__["check_scheme"].__func__ if "check_scheme" in
+                               cls.__dict__ else tcp.TCPTransport.check_scheme.__func__] = \
+                    lambda I2, c, t: NONE
+                from gallia.transports.base import TargetURI
+                models.CLASS_MODELS[cls] = lambda I2, c, a, k: VObj(Stub, {}, lazy=True,
+                                                                    tag="transport")
+                models.CLASS_MODELS[TargetURI] = lambda I2, c, a, k: target
+                try:
+                    I.await_v(I.call_v(I.getattr_v(VConst(cls), "connect"), [target, NONE], {}))
+                finally:
+                    models.CLASS_MODELS.pop(cls, None)
+                    models.CLASS_MODELS.pop(TargetURI, None)
+        except PyExc as e:
+            I.fail(f"Z-{which}-creates-its-stream-without-raising", e.exc.cls.__name__)
+            return
+        I.prove("Z-one-stream-is-created", z3.BoolVal(len(made) == 1))
+        for kw in made:
+            lim = kw.get("limit")
+            ok = lim is None or lim is NONE
+            if not ok:
+                lv = models.as_int(I, lim)
+                I.prove("Z-stream-buffer-limit-leaves-room-for-the-longest-line(8191-bytes)",
+                        lv >= MAX_LINE, f"limit={lim!r}")
+            else:
+                I.prove("Z-stream-buffer-limit-leaves-room-for-the-longest-line(8191-bytes)",
+                        z3.BoolVal(True))
+    return harness
 
 
 def build_units(tier: str) -> list[Unit]:
-    units = []
+    units = [Unit(f"stream-limit/{w}", stream_limit_harness(w))
+             for w in ("server/tcp", "server/unix", "client/tcp-lines", "client/unix-lines")]
     for k in ("tcp-lines", "unix-lines"):
         units.append(Unit(f"{k}/write", write_harness(k)))
         units.append(Unit(f"{k}/read", read_harness(k)))
@@ -184,11 +265,148 @@ def build_units(tier: str) -> list[Unit]:
     return units
 
 
+class _W:
+    def __init__(self) -> None:
+        self.data = b""
+
+    def write(self, b: bytes) -> None:
+        self.data += b
+
+    async def drain(self) -> None:
+        pass
+
+    def close(self) -> None:
+        pass
+
+    async def wait_closed(self) -> None:
+        pass
+
+    def is_closing(self) -> bool:
+        return False
+
+
+def native_read_after_timeout() -> tuple[bool, str]:
+    """A read that times out on an empty stream, then three messages arrive: the next three reads
+    return exactly those three."""
+    tcp, unix = T()
+    from gallia.transports.base import TargetURI
+
+    async def go() -> tuple[bool, str]:
+        r = asyncio.StreamReader()
+        t = tcp.TCPLinesTransport(TargetURI("tcp-lines://127.0.0.1:1"), r, _W())  # type: ignore
+        try:
+            await t.read(timeout=0.05)
+            return True, "a read on an empty stream returned"
+        except TimeoutError:
+            pass
+        msgs = [b"\x50\x01", b"\x62\xf1\x90AB", b"\x7f\x22\x31"]
+        for m in msgs:
+            r.feed_data(m.hex().encode() + b"\n")
+        got = []
+        for _ in msgs:
+            try:
+                got.append(await t.read(timeout=0.2))
+            except Exception as e:  # noqa: BLE001
+                got.append(type(e).__name__.encode())
+        return got != msgs, (f"after a timed-out read the messages {[m.hex() for m in msgs]} "
+                             f"are read as {[g.hex() if isinstance(g, bytes) else g for g in got]}")
+    return asyncio.run(go())
+
+
+def native_server_order() -> tuple[bool, str]:
+    """Three requests arrive in one segment; the first is slow to answer."""
+    import gallia.command  # noqa: F401
+    from gallia.services.uds import server as SV
+
+    class Slow(SV.TCPUDSServerTransport):  # type: ignore[misc]
+        def __init__(self) -> None:
+            pass
+
+        async def handle_request(self, pdu: bytes) -> tuple[bytes | None, float]:
+            await asyncio.sleep(0.05 if pdu[0] == 0x22 else 0)
+            return bytes([pdu[0] + 0x40]) + pdu[1:], 0.0
+
+    async def go() -> tuple[bool, str]:
+        r = asyncio.StreamReader()
+        reqs = [b"\x22\xf1\x90", b"\x3e\x00", b"\x10\x01"]
+        r.feed_data(b"".join(q.hex().encode() + b"\n" for q in reqs))
+        r.feed_eof()
+        w = _W()
+        await asyncio.wait_for(Slow().handle_client(r, w), 2)  # type: ignore[arg-type]
+        got = [bytes.fromhex(x.decode()) for x in w.data.split(b"\n") if x]
+        want = [bytes([q[0] + 0x40]) + q[1:] for q in reqs]
+        return got != want, (f"requests {[q.hex() for q in reqs]} in one segment: replies "
+                             f"{[g.hex() for g in got]}, expected {[x.hex() for x in want]}")
+    return asyncio.run(go())
+
+
+LONG_LINE_SCRIPT = r"""
+import asyncio, json, logging, os, sys, tempfile
+logging.disable(logging.CRITICAL)
+import gallia.command
+from gallia.services.uds import server as SV
+from gallia.transports.base import TargetURI
+from gallia.transports import unix
+tmp = tempfile.mkdtemp(prefix="c19_"); path = os.path.join(tmp, "s.sock")
+class Echo(SV.UnixUDSServerTransport):
+    async def handle_request(self, pdu):
+        return bytes([pdu[0] + 0x40]) + len(pdu).to_bytes(2, "big"), 0.0
+async def go():
+    srv = Echo(None, TargetURI(f"unix-lines://{path}"))
+    task = asyncio.ensure_future(srv.run())
+    for _ in range(100):
+        if os.path.exists(path):
+            break
+        await asyncio.sleep(0.02)
+    res = [False, "requests of 1..4095 bytes are answered"]
+    for n in (1, 2048, 2049, 3000, 4095):
+        t = await asyncio.wait_for(unix.UnixLinesTransport.connect(TargetURI(f"unix-lines://{path}")), 2)
+        await t.write(bytes([0x36]) + bytes(n - 1))
+        try:
+            got = await asyncio.wait_for(t.read(), 1)
+        except Exception as e:
+            got = type(e).__name__.encode()
+        want = bytes([0x76]) + n.to_bytes(2, "big")
+        if got != want:
+            res = [True, f"a request of {n} bytes gets {got!r} instead of {want.hex()}"]
+            break
+    print("RESULT " + json.dumps(res), flush=True)
+    os._exit(0)   # asyncio's server shutdown waits for connections the handler never closes
+asyncio.run(go())
+"""
+
+
+def native_long_line(which: str) -> tuple[bool, str]:
+    """Requests of up to 4095 bytes through a real unix-socket server started with its own
+    run() (in a child process: the server's shutdown path is not part of the scenario)."""
+    import json
+    import subprocess
+    import sys
+    try:
+        p = subprocess.run([sys.executable, "-c", LONG_LINE_SCRIPT], capture_output=True,
+                           text=True, timeout=40)
+    except subprocess.TimeoutExpired:
+        return False, "scenario timed out"
+    for line in p.stdout.splitlines():
+        if line.startswith("RESULT "):
+            bad, msg = json.loads(line[7:])
+            return bool(bad), msg
+    return False, "scenario produced no result: " + p.stderr[-300:]
+
+
 def native_replay(unit: str, obligation: str, model: dict) -> tuple[bool, str]:
     import logging
     logging.disable(logging.CRITICAL)
     import gallia.command  # noqa: F401
     from gallia.services.uds import server as SV
+    if "timed-out-read" in obligation:
+        return native_read_after_timeout()
+    if "answered-before-the-next-line" in obligation or "no-concurrent-reply" in obligation:
+        return native_server_order()
+    if unit.startswith("stream-limit/"):
+        return native_long_line(unit)
+    if "does-not-raise-when-the-client-disconnects" not in obligation:
+        return False, "no native scenario for this obligation"
 
     async def go() -> tuple[bool, str]:
         r = asyncio.StreamReader()
